@@ -51,7 +51,7 @@ Proof.
   intros H HL data hs p t F E Ht.
   rewrite <- pairwise_eq_rfc.
   - exact (path_complete H HL data hs p t F E Ht).
-  - intros ->. discriminate E.
+  - intros ->. unfold merkle_leaf_path, merkle_leaf_path_gen in E. destruct (_ <? _)%Z in E; discriminate E.
 Qed.
 Print Assumptions c27_path_complete.
 
